@@ -97,3 +97,113 @@ func VP_C15_crash() {
 	}
 	vp.Cover("end")
 }
+
+// vpCrashImage: the file as a crash leaves it - `before` plus the first c
+// recorded physical writes, the next one torn. Writes of up to 8 bytes (head
+// entries, length prefixes) are torn at every byte, longer ones after 1 byte, at
+// the first 512-byte boundary and one byte before their end.
+func vpCrashImage(before []byte, log []vpWrite) []byte {
+	c := vp.Choice(len(log) + 1)
+	image := append([]byte{}, before...)
+	for i := 0; i < c; i++ {
+		vpApply(&image, log[i].off, log[i].data)
+	}
+	if c < len(log) {
+		w := log[c]
+		var t int
+		if len(w.data) <= 8 {
+			t = vp.Choice(len(w.data))
+		} else {
+			t = []int{0, 1, 512, len(w.data) - 1}[vp.Choice(4)]
+			if t >= len(w.data) {
+				t = len(w.data) / 2
+			}
+		}
+		vpApply(&image, w.off, w.data[:t])
+	}
+	return image
+}
+
+// two live chunks of one to three sectors anywhere in sectors 2..6 (holes
+// before, between and behind them); one of them is rewritten smaller or larger
+// (it shrinks, grows, moves into a hole next to the other one); the crash tears
+// short writes at every byte. The other chunk reads back after re-opening.
+func VP_C15_crash_shrink() {
+	const S = 7
+	var chunks [2]vpChunk
+	for i := range chunks {
+		c := &chunks[i]
+		c.x, c.z = vpCoords[i][0], vpCoords[i][1]
+		c.sec, c.cnt = int32(2+vp.Choice(5)), int32(1+vp.Choice(3))
+		vp.Assume(c.sec+c.cnt <= S)
+		c.length = 4096*int(c.cnt) - 4
+		c.first, c.end = vp.Byte(), vp.Byte()
+	}
+	vp.Assume(chunks[0].sec+chunks[0].cnt <= chunks[1].sec || chunks[1].sec+chunks[1].cnt <= chunks[0].sec)
+	before := vpBuild(chunks[:], S)
+	mem := &vpMemFile{b: append([]byte{}, before...)}
+	r, err := Load(mem)
+	vp.Assert(err == nil, "Load")
+	ti := vp.Choice(2)
+	n := []int{1, 4093}[vp.Choice(2)]
+	data := make([]byte, n)
+	data[0], data[n-1] = vp.Byte(), vp.Byte()
+	mem.log = nil
+	vp.FreezeClock(true)
+	err = r.WriteSector(chunks[ti].x, chunks[ti].z, data)
+	vp.FreezeClock(false)
+	vp.Assert(err == nil, "WriteSector")
+	r2, err := Load(&vpMemFile{b: vpCrashImage(before, mem.log)})
+	vp.Assert(err == nil, "re-opening after the crash succeeds")
+	vpExpectChunk(r2, chunks[1-ti], "other chunk after crash")
+	vp.Assert(!r2.ExistSector(vpCoords[2][0], vpCoords[2][1]), "absent chunk still absent after crash")
+	vp.Cover("end")
+}
+
+// the crashing write is not the first one on this Region value: an earlier,
+// completed WriteSector rewrote a chunk (in place, longer - the end of an
+// unpadded file moves - or relocated); whatever the Region remembers from it,
+// the next write, interrupted anywhere, leaves the other chunks readable.
+func VP_C15_crash_after_write() {
+	a := vpChunk{x: vpCoords[0][0], z: vpCoords[0][1], sec: 2, cnt: 1, length: 500, first: vp.Byte(), end: vp.Byte()}
+	b := vpChunk{x: vpCoords[1][0], z: vpCoords[1][1], sec: 3, cnt: 1, length: 100, first: vp.Byte(), end: vp.Byte()}
+	model := []vpChunk{a, b}
+	var img []byte
+	if vp.Choice(2) == 0 {
+		img = vpBuildUnpadded(model, 4)
+	} else {
+		img = vpBuild(model, 4)
+	}
+	mem := &vpMemFile{b: img}
+	r, err := Load(mem)
+	vp.Assert(err == nil, "Load")
+	// the earlier write
+	pi := vp.Choice(2)
+	pn := []int{3000, 4092, 4093}[vp.Choice(3)]
+	pd := make([]byte, pn)
+	pd[0], pd[pn-1] = vp.Byte(), vp.Byte()
+	vp.FreezeClock(true)
+	vp.Assert(r.WriteSector(model[pi].x, model[pi].z, pd) == nil, "WriteSector")
+	model[pi].length, model[pi].first, model[pi].end = pn, pd[0], pd[pn-1]
+	before := append([]byte{}, mem.b...)
+	// the interrupted one: either live chunk or a fresh coordinate
+	ti := vp.Choice(3)
+	n := []int{1, 4093}[vp.Choice(2)]
+	data := make([]byte, n)
+	data[0], data[n-1] = vp.Byte(), vp.Byte()
+	mem.log = nil
+	err = r.WriteSector(vpCoords[ti][0], vpCoords[ti][1], data)
+	vp.FreezeClock(false)
+	vp.Assert(err == nil, "WriteSector")
+	r2, err := Load(&vpMemFile{b: vpCrashImage(before, mem.log)})
+	vp.Assert(err == nil, "re-opening after the crash succeeds")
+	for i, ch := range model {
+		if i != ti {
+			vpExpectChunk(r2, ch, "other chunk after crash")
+		}
+	}
+	if ti != 2 {
+		vp.Assert(!r2.ExistSector(vpCoords[2][0], vpCoords[2][1]), "absent chunk still absent after crash")
+	}
+	vp.Cover("end")
+}
